@@ -377,6 +377,10 @@ func (j *Job) runPath(sol *Solver, prefix []decision) {
 	i := newInterpreter(j.P)
 	i.jb = j
 	i.maxSteps = j.Spec.MaxSteps
+	if j.Spec.MaxWallMs > 0 {
+		// a single path may use the job's whole wall budget, not more
+		i.deadline = time.Now().Add(time.Duration(j.Spec.MaxWallMs) * time.Millisecond)
+	}
 	e := &explorer{job: j, s: sol, prefix: prefix, reached: map[string]bool{}}
 	i.ex = e
 
